@@ -67,7 +67,8 @@ SOURCE_TIES = [{
     "sources": ["deepdiff/diff.py"],
     "fragment": "diff.py: DeepDiff._get_most_in_common_pairs_in_iterables between the cache lookup and the cache write (double loop over "
                 "hashes_added x hashes_removed, loop detection, distance cut, most_in_common_pairs, distances_to_from_hashes, greedy "
-                "selection, symmetric closure); the rough distance is an oracle",
+                "selection, symmetric closure); DeepDiff._diff_iterable_with_deephash: the get_pairs test (cutoff_intersection_for_pairs) and the "
+                "max_passes decision whether that function is called; the rough distance is an oracle",
 }]
 
 HEADER = ("From DD Require Import Base.PyStr Base.Value Diff.Tree Diff.DiffModel Diff.DiffShow "
@@ -1793,12 +1794,18 @@ def on_source_tie_break(ctx, name, rec):
     syn = ("Local Open Scope string_scope.\nEval vm_compute in (\"BEGIN\" ++ nl ++ show_sx (SL ["
            "sx_synthetic g__get_most_in_common_pairs_in_iterables 4%Z [0; 1]%Z [10; 11; 12]%Z [1; 2; 5]%Z; "
            "sx_synthetic g__get_most_in_common_pairs_in_iterables 4%Z [0; 1; 2]%Z [10; 11]%Z [1; 2; 5]%Z; "
-           "sx_synthetic g__get_most_in_common_pairs_in_iterables 4%Z [0; 1; 2]%Z [10; 11; 12]%Z [1; 5]%Z]) ++ nl ++ \"END\").\n")
+           "sx_synthetic g__get_most_in_common_pairs_in_iterables 4%Z [0; 1; 2]%Z [10; 11; 12]%Z [1; 5]%Z; "
+           "sx_decision g__diff_iterable_with_deephash_pairs]) ++ nl ++ \"END\").\n")
     from concurrent.futures import ThreadPoolExecutor
     with ThreadPoolExecutor(max_workers=2) as ex:
         (ra, ea), (rb, eb) = ex.map(lambda x: _tie_coq(ctx, *x), [("search_recorded", body), ("search_synthetic", syn)])
-    out["synthetic_tables(2x3,3x2 over 3 distances; 3x3 over 2): [#generated<>hand, first, #predicate fails, first, witness]"] = \
+    out["synthetic_tables(2x3,3x2 over 3 distances; 3x3 over 2): [#generated<>hand, first, #predicate fails, first, witness]; "
+        "pairs decision: [settings (cutoff_intersection, max_passes, pass counter, #added, #removed) enumerated, #generated<>hand, first]"] = \
         rb.strip() if rb is not None else "the differencing file did not compile against the regenerated model: " + str(eb)
+    import re as _re
+    m_dec = _re.search(r"\((\d+) (\d+) \([^()]*(?:\([^()]*\)[^()]*)*\)\)\)\s*$", rb.strip()) if rb is not None else None
+    decision_differs = bool(m_dec and int(m_dec.group(2)) > 0)
+    out["pairs_decision_differs"] = decision_differs if rb is not None else "unknown"
     hit = []
     if ra is None:
         out["recorded_search"] = "the differencing file did not compile against the regenerated model: " + str(ea)
@@ -1819,6 +1826,12 @@ def on_source_tie_break(ctx, name, rec):
         if i not in seen_:
             seen_.add(i)
             TIE_PAIRS.append(inputs[i])
+    if decision_differs or rb is None:
+        # the decision whether pairs are computed deviates: the pairing-rich inputs go through every full-result knob setting
+        # (pairing off by max_passes=0 / cutoff_intersection_for_pairs=0, one or two passes, both cut-offs at 1)
+        for pr in TIE_INPUTS[:8]:
+            if pr not in TIE_PAIRS:
+                TIE_PAIRS.append(pr)
     del TIE_PAIRS[12:]
     out["inputs_fed_to_correspondence_and_oracle"] = [[repr(a), repr(b)] for a, b in TIE_PAIRS]
     if not TIE_PAIRS:
